@@ -71,15 +71,20 @@ theorem rootHash_hasDb (t : WT) : (rootHash H t).1.hasDb = t.hasDb := by
 theorem commit_hasDb (t : WT) (lvl : Int) : (commit H t lvl).1.hasDb = t.hasDb := by
   unfold commit
   dsimp only
-  split <;> rfl
+  split
+  · split <;> rfl
+  · rfl
 
 theorem commit_store (t : WT) (lvl : Int) : (commit H t lvl).1.store = t.store := by
   unfold commit
   dsimp only
-  split <;> rfl
+  split
+  · split <;> rfl
+  · rfl
 
 theorem commit_root_of_clean (t : WT) (lvl : Int) (hd : t.root.dirty = false) : (commit H t lvl).1.root = t.root := by
-  simp [commit, hd]
+  simp only [commit, hd, Bool.not_false, if_true]
+  split <;> rfl
 
 /-- `Update(key, value ≠ "", _)` never leaves a nil root -/
 theorem update_root_isNil (t : WT) (key : List Nib) (value : Bytes) (w : Nat) (hv : value ≠ []) (hp : Proper t.root)
